@@ -109,6 +109,13 @@ impl Send {
             return Err(UserError::PeerDisabledServerPush);
         }
 
+        // PUSH_PROMISE goes out on the stream of the request it belongs to, and
+        // that stream has to be one we may still send on: nothing but
+        // RST_STREAM follows our END_STREAM or a reset.
+        if stream.state.is_send_closed() {
+            return Err(UserError::InactiveStreamId);
+        }
+
         tracing::trace!(
             "send_push_promise; frame={:?}; init_window={:?}",
             frame,
